@@ -24,6 +24,13 @@ Proof. exact (Ordering.C11_text uc o1 o2 txt p1 p2 n1 n2 b1 b2). Qed.
 Theorem C11_file_orderings uc t o : ordering_of_file uc t = Done o -> NoDup (map snd o).
 Proof. exact (ordering_of_file_distinct uc t o). Qed.
 
+(** "variables listed in the file are ordered as in the file": the ordering is the file's distinct names in order
+    of first appearance, and the name at position a receives the id a (the header lists free variables by id) *)
+Theorem C11_file_order uc t o : ordering_of_file uc t = Done o ->
+  exists ws, NoDup ws /\ o = number_from 0 ws /\ ws = dedup_names nil (ident_names (lex_raw uc t)) /\
+    forall a w, nth_error ws a = Some w -> assoc w o = Some a.
+Proof. exact (Ordering.C11_file_order uc t o). Qed.
+
 Theorem C11_meaning (p q : nat -> nat) : (forall x, q (p x) = x) -> forall n m f b1 b2, nofsub f ->
   eval_f n f = Some b1 -> eval_f m (rename p f) = Some b2 -> forall s, beval s b2 = beval (fun x => s (p x)) b1.
 Proof. intros Hq n m f b1 b2. exact (C11_rename p q Hq n m f b1 b2). Qed.
